@@ -81,6 +81,8 @@ def bootstrap_ci(
     if method == "quantile":
         alpha_joint = np.stack([alpha_lower, alpha_upper], axis=0)  # (2, Z')
         ci = np.nanquantile(theta, q=alpha_joint, axis=0)  # (2, Z', Y)
+        # For an empty metric shape numpy short-circuits and drops the quantile axes
+        ci = np.reshape(ci, alpha_joint.shape + theta.shape[1:])
         ci = np.moveaxis(ci, source=[0, 1], destination=[-1, -2])  # (Y, Z', 2)
         ci = np.reshape(ci, theta.shape[1:] + alpha_shape + (2,))  # (Y, Z, 2)
     elif method in {"bc", "bca"}:
